@@ -28,7 +28,12 @@ TARGETED = [
     'select a from t group by 1 having count(*) > 1', 'select distinct on (a) a, b from t', 'select a from t for update',
     'select * from t1, t2 where t1.a = t2.a', 'with c as (select 1) select * from c', 'select a from t union all select b from u limit 2',
     'select exists(select 1), a between 1 and 2 from t', 'select date(a), extract(month from b) from t',
-    'select a from t where a is true', 'select b.* from a.b', 'select `a b`.`c d` from `e f`', 'select 1.5, null, true, \'x\'',
+    'select a from t where a is true',
+    'select a from t where length(b) > 1 and ifnull(c, 0) = 1 and char_length(d) < now() order by ceil(e), upper(f)',
+    'select coalesce(lower(a), substr(b, 1, 2)) from t where abs(c) = round(d, 1) group by concat(a, b) having max(length(a)) > 1',
+    'insert into t (a) select length(b) from u where ifnull(c, 1) = 1',
+    'update t set a = length(b) where char_length(c) > 2',
+    'select * from (select length(a) as l from t where ifnull(b, 0) = 0) as s', 'select b.* from a.b', 'select `a b`.`c d` from `e f`', 'select 1.5, null, true, \'x\'',
 ]
 
 
